@@ -433,6 +433,27 @@ pub fn one_case(history: &[(String, Scenario, bool)], mode: &str, sc: Scenario, 
             }
         }
     }
+    // 3a. when several schedules were emitted for one failure, the earlier ones must reproduce it too
+    //     (a user may pick any of them up)
+    let earlier: Vec<(String, bool)> = match mode {
+        "P" if printed.len() > 1 => printed[..printed.len() - 1].iter().map(|t| (t.clone(), false)).collect(),
+        "F" if files.len() > 1 => files[..files.len() - 1].iter().filter(|f| std::path::Path::new(f.as_str()).exists()).map(|f| (f.clone(), true)).collect(),
+        _ => vec![],
+    };
+    for (text, is_file) in earlier {
+        let r = spawn(&["c12replay".into(), sc.name().into(), salt.to_string(), text.clone(), if is_file { "1".into() } else { "0".into() }]);
+        acc.add("replays", 1);
+        acc.add("replays_of_earlier_emitted_schedules", 1);
+        let rep = r.stdout.lines().find_map(|l| l.strip_prefix("C12REPLAY ")).unwrap_or("").to_string();
+        let same = if outcome.starts_with("deadlock:") { rep.starts_with("deadlock:") } else { rep == outcome };
+        if !same && !r.stderr.starts_with("spawn failed") {
+            acc.violation(
+                "earlier-emitted-schedule-does-not-reproduce",
+                format!("{} schedules were emitted for this failure ({outcome:?}); replaying an earlier one gave {rep:?}", if mode == "P" { printed.len() } else { files.len() }),
+                wit(json!({"schedule": text.chars().take(300).collect::<String>()})),
+            );
+        }
+    }
     // 3. the emitted schedule reproduces the failure
     if let Some((text, is_file)) = schedule_text {
         let r = spawn(&["c12replay".into(), sc.name().into(), salt.to_string(), text.clone(), if is_file { "1".into() } else { "0".into() }]);
